@@ -66,3 +66,12 @@ Definition obs_eqb (a b : obs) : bool :=
 
 Definition chk (c : list (file * subfile) * N * list obs) : bool :=
   let '(steps, np, o) := c in list_eqb obs_eqb (model_obs steps np) o.
+
+(* comparison for the second driver (the real SIGHUP loop of main.go, run in package main, which
+   only sees the exported API): no domain decisions, no statistics printers *)
+Definition obs_eqb_lite (a b : obs) : bool :=
+  (o_parse a =? o_parse b) && (o_stage a =? o_stage b) &&
+  list_eqb Bool.eqb (o_cov a) (o_cov b) && Bool.eqb (o_loop a) (o_loop b) &&
+  list_eqb Bool.eqb (o_ph a) (o_ph b) && list_eqb N.eqb (o_gens a) (o_gens b).
+Definition chk_lite (c : list (file * subfile) * N * list obs) : bool :=
+  let '(steps, np, o) := c in list_eqb obs_eqb_lite (model_obs steps np) o.
